@@ -279,6 +279,7 @@ class Check:
                     'distinct_nontrivial': 0, 'samples': [], 'rule': '', 'tlc_runs': []}
         self.assumptions = []
         self.violations = []       # list of dict(key, what, replay)
+        self.deviations = []       # observed behaviour outside the model although every property-level condition held
         self.known = []
         self.findings = [f for f in load_findings() if f['property'] == prop]
 
@@ -324,13 +325,25 @@ class Check:
         self.violations.append({'key': key, 'what': what, 'replay': path})
         return True
 
+    def deviation(self, key, what, obj):
+        """The implementation left the model's behaviours but everything the property itself demands held on what was
+        observed (e.g. another eviction order, another admissible solver step): reported, recorded, NOT an alarm."""
+        key = norm_key(key)
+        d = os.path.join(REPLAYS, self.prop)
+        os.makedirs(d, exist_ok=True)
+        path = os.path.join(d, 'deviation_%s_%s.json' % (time.strftime('%Y%m%d_%H%M%S'), hashlib.sha1(key.encode()).hexdigest()[:8]))
+        with open(path, 'w') as f:
+            json.dump(dict(obj, property=self.prop, key=key, what=what, tier=self.tier, seed=self.seed, repo=repo_state()), f, indent=1)
+        log('MODEL-DEVIATION: property=%s (no property-level condition failed; the specification should be re-aligned) %s details=%s' % (self.prop, what, path))
+        self.deviations.append({'key': key, 'what': what, 'details': path})
+
     def finish(self, write_evidence=True):
         self.cov['samples'] = self.cov['samples'] or ['(none recorded)']
         ev = {
             'property_id': self.prop, 'tier': self.tier, 'seed': self.seed, 'level': self.level,
             'coverage': self.cov, 'assumptions': self.assumptions,
             'wall_s': round(time.time() - self.t0, 1), 'violations': len(self.violations),
-            'known_findings_hit': self.known, 'repo': repo_state(),
+            'known_findings_hit': self.known, 'model_deviations': self.deviations, 'repo': repo_state(),
         }
         if write_evidence:
             os.makedirs(EVID, exist_ok=True)
@@ -456,7 +469,10 @@ def generic_replay(chk, path):
     chk.cov['rule'] = 'replay of ' + path
 
 
-def judge_trace(chk, res, module, trace_path, name, nruns=1, key_of=None, offset=0, depth=0):
+def judge_trace(chk, res, module, trace_path, name, nruns=1, key_of=None, offset=0, depth=0, advisory=None):
+    """advisory: None - a rejection is a violation; True - the trace spec only describes HOW the code works (a rejection
+    is a model deviation, reported but not an alarm); callable(trace_path) -> bool - decides, e.g. by validating the
+    same trace against a specification of the property-level conditions alone, whether those still hold."""
     chk.add_tlc(res, name, trace=True)
     if res.ok:
         chk.cov['traces_validated_against_impl'] += nruns
@@ -491,6 +507,12 @@ def judge_trace(chk, res, module, trace_path, name, nruns=1, key_of=None, offset
         if mism:
             what += ' ' + ' | '.join(mism[:3])
         kept = keep_trace(chk.prop, trace_path)
+        if advisory is not None and depth == 0:
+            holds = advisory if isinstance(advisory, bool) else bool(advisory(trace_path))
+            if holds:
+                chk.deviation(key, what, {'module': module, 'trace': kept or trace_path, 'event_index': idx, 'event': ev,
+                                          'mismatch': mism[:10], 'tlc_tail': res.out.splitlines()[-30:]})
+                return True
         reported = chk.violation(key, what, {'module': module, 'trace': kept or trace_path, 'event_index': idx, 'event': ev, 'tlc_env': getattr(res, 'env', {}),
                                              'mismatch': mism[:10], 'invariant': res.invariant,
                                              'tlc_tail': res.out.splitlines()[-30:]})
